@@ -473,6 +473,18 @@ impl Prop for C10 {
                 if !authorised {
                     out.nontrivial = true;
                     out.label("unauthorised_sender_tried");
+                    // handler level: the addressed contract's own handler must refuse, whatever the contracts it
+                    // would have called next do (a guard that only "works" because a later message fails is no guard)
+                    if let Ok(n) = before.handler_accepts(&from, contract, msg.clone(), &funds) {
+                        out.fail(v(
+                            &format!("unauthorised-accepted-by-handler/{}/{}/{}", cname, vname, SENDERS[si]),
+                            format!(
+                                "state '{}': the {} handler accepted {} from {} ({}) and returned {} messages; designated principals: {:?}; message {}",
+                                STATE_KINDS[*state as usize % STATE_KINDS.len()], cname, vname, from, SENDERS[si], n, allowed, String::from_utf8_lossy(msg.as_slice())
+                            ),
+                        ));
+                        return out;
+                    }
                     if res.is_ok() || !s.w.same_state(&before) {
                         out.fail(v(
                             &format!("unauthorised-accepted/{}/{}/{}", cname, vname, SENDERS[si]),
